@@ -492,6 +492,26 @@ fn gen_pager(rng: &mut Rng, thorough: bool, emit: &mut dyn FnMut(String)) {
     for target in ["t_i32_i64", "t_i32_str", "t_i32", "s_pk_v", "row", "S/t_i32_i64", "S/s_pk_v", "S/row"] {
         let nat = natural(target.trim_start_matches("S/"));
         let vars = variants(&nat);
+        if !target.starts_with("S/") {
+            // `rowsmeta`: ONE response parsed with a cached metadata: every (cached, sent) pair of {none, natural,
+            // variant} x {natural, variant}, with / without the extension, every flag combination (0x0001 global table
+            // spec, 0x0004 NO_METADATA, 0x0008 METADATA_CHANGED - also set without the extension, also both)
+            let mut cacheds: Vec<String> = vec!["none".to_owned(), format!("- {}", cols_str(&nat)), format!("3 {}", cols_str(&nat))];
+            cacheds.extend(vars.iter().map(|v| format!("- {}", cols_str(v))));
+            cacheds.extend(vars.iter().take(if thorough { vars.len() } else { 3 }).map(|v| format!("5 {}", cols_str(v))));
+            let mut sents: Vec<&Vec<PCol>> = vec![&nat];
+            sents.extend(vars.iter());
+            for c in &cacheds {
+                for sv in &sents {
+                    for ext in [0, 1] {
+                        for flags in [0x1, 0x0, 0x5, 0x9, 0xD, 0x4, 0x8] {
+                            let rows = if flags == 0x0 || rng.chance(1, 8) { 0 } else { 1 + rng.below(3) };
+                            emit(format!("rowsmeta {} {} {} | {} | 7 {} | {}", target, ext, flags, c, cols_str(sv), rows));
+                        }
+                    }
+                }
+            }
+        }
         for (ext, skip) in [(false, false), (false, true), (true, false)] {
             if ext && target.starts_with("S/") {
                 continue; // the session cases run without the metadata-id extension
@@ -771,6 +791,7 @@ fn gen_bindrow(rng: &mut Rng, thorough: bool, emit: &mut dyn FnMut(String)) {
         for cols in &lists {
             emit(format!("bindrow struct2 | {} | {}", cols_str(cols), struct_shapes(2)));
             emit(format!("bindrow struct3 | {} | {}", cols_str(cols), struct_shapes(3)));
+            emit(format!("bindrow structcba | {} | {}", cols_str(cols), struct_shapes_cba()));
             emit(format!("bindrow map | {} | {}", cols_str(cols), map2));
             emit(format!("bindrow map | {} | {}", cols_str(cols), map3));
             // one marker's type mutated
@@ -781,6 +802,7 @@ fn gen_bindrow(rng: &mut Rng, thorough: bool, emit: &mut dyn FnMut(String)) {
                     cc[i].1 = m;
                     emit(format!("bindrow struct2 | {} | {}", cols_str(&cc), struct_shapes(2)));
                     emit(format!("bindrow struct3 | {} | {}", cols_str(&cc), struct_shapes(3)));
+                    emit(format!("bindrow structcba | {} | {}", cols_str(&cc), struct_shapes_cba()));
                 }
             }
         }
